@@ -97,7 +97,9 @@ def run(ctx):
     build = ctx.build()
     # ---------------- tasks: enumerate interleavings
     confs = [([['g', 2], ['g', 3]], [3, 4]), ([['g', 2], ['co', 2]], [3, 3]), ([['co', 1], ['ag', 2]], [2, 4]),
-             ([['g', 1], ['g', 1], ['g', 2]], [2, 2, 3])]
+             ([['g', 1], ['g', 1], ['g', 2]], [2, 2, 3]),
+             # two decorated coroutines whose lifetimes overlap without nesting (the first may finish while the second is suspended)
+             ([['co', 1], ['co', 2]], [2, 3])]
     if not ctx.quick:
         confs += [([['g', 2], ['co', 2], ['ag', 1]], [3, 3, 3]), ([['ag', 2], ['ag', 2]], [4, 4]), ([['g', 3], ['g', 3]], [4, 4]),
                   ([['co', 2], ['co', 2], ['g', 1]], [3, 3, 2])]
